@@ -47,11 +47,33 @@ pub trait SizeLaw: Scheme {
     fn proof_size(sess: &Session<Self>, order: &[usize]) -> usize;
     /// the per-label proofs of `open_combinations` obey the same law as those of `batch_open`
     const LC_LAW: bool = true;
+    /// a point at which the blinding polynomial of this commitment state vanishes (a hiding proof must
+    /// keep its size there); None = no such point found / the scheme's proofs carry no blinding value
+    fn blinding_root(_sess: &Session<Self>, _st: &State<Self>, _seed: u64) -> Option<Self::Pt> {
+        None
+    }
+}
+
+/// a root of a polynomial of degree 1 or 2 over the field, if it has one
+fn small_root(c: &[Fr]) -> Option<Fr> {
+    use ark_ff::Field;
+    match c.len() {
+        2 if !c[1].is_zero() => Some(-c[0] / c[1]),
+        3 if !c[2].is_zero() => {
+            let disc = c[1] * c[1] - Fr::from(4u64) * c[2] * c[0];
+            let s = disc.sqrt()?;
+            Some((s - c[1]) / (c[2] + c[2]))
+        }
+        _ => None,
+    }
 }
 
 impl SizeLaw for Marlin {
     fn commitment_size(sess: &Session<Self>, i: usize) -> usize {
         g1() + TAG + if sess.meta[i].bound.is_some() { g1() } else { 0 }
+    }
+    fn blinding_root(_sess: &Session<Self>, st: &State<Self>, _seed: u64) -> Option<Fr> {
+        small_root(st.rand.blinding_polynomial.coeffs())
     }
     fn proof_size(sess: &Session<Self>, order: &[usize]) -> usize {
         g1() + TAG + if order.iter().any(|i| sess.meta[*i].hiding.is_some()) { fr() } else { 0 }
@@ -60,6 +82,9 @@ impl SizeLaw for Marlin {
 impl SizeLaw for Sonic {
     fn commitment_size(_sess: &Session<Self>, _i: usize) -> usize {
         g1()
+    }
+    fn blinding_root(_sess: &Session<Self>, st: &State<Self>, _seed: u64) -> Option<Fr> {
+        small_root(st.blinding_polynomial.coeffs())
     }
     fn proof_size(sess: &Session<Self>, order: &[usize]) -> usize {
         g1() + TAG + if order.iter().any(|i| sess.meta[*i].hiding.is_some()) { fr() } else { 0 }
@@ -78,6 +103,37 @@ impl SizeLaw for Ipa {
 impl SizeLaw for Pst13 {
     fn commitment_size(_sess: &Session<Self>, _i: usize) -> usize {
         g1() + TAG
+    }
+    fn blinding_root(sess: &Session<Self>, st: &State<Self>, seed: u64) -> Option<Vec<Fr>> {
+        use ark_poly::{multivariate::Term, DenseMVPolynomial};
+        // every monomial of the blinding polynomial is univariate: fix x_1.. at random, solve for x_0
+        let n = sess.keys.info.num_vars;
+        let mut g = rng(seed ^ 0xb11d);
+        let mut z: Vec<Fr> = (0..n).map(|_| Fr::rand(&mut g)).collect();
+        let mut c = vec![Fr::zero(); 3];
+        for (cf, t) in st.blinding_polynomial.terms() {
+            if t.is_constant() {
+                c[0] += *cf;
+            } else {
+                let v = t.vars();
+                if v.len() != 1 {
+                    return None;
+                }
+                if v[0] == 0 {
+                    if t.degree() > 2 {
+                        return None;
+                    }
+                    c[t.degree()] += *cf;
+                } else {
+                    c[0] += *cf * t.evaluate(&z);
+                }
+            }
+        }
+        while c.len() > 1 && c[c.len() - 1].is_zero() {
+            c.pop();
+        }
+        z[0] = small_root(&c)?;
+        Some(z)
     }
     fn proof_size(sess: &Session<Self>, order: &[usize]) -> usize {
         LEN + sess.keys.info.num_vars * g1() + TAG + if order.iter().any(|i| sess.meta[*i].hiding.is_some()) { fr() } else { 0 }
@@ -128,6 +184,28 @@ pub fn check_alg<S: SizeLaw>(c: &Scn, ctx: &mut CaseCtx) -> Result<(), Failure> 
         sum += got;
     }
     ctx.check(total == sum, sig(P, S::NAME, "batch_proof", "size_law"), || format!("batch proof has {total} bytes, its proofs sum to {sum}"))?;
+    // a hiding proof keeps its size at a point where the blinding polynomial happens to vanish: the
+    // polynomial is committed again with hiding bound 1 (a blinding polynomial of degree <= 2, whose
+    // roots the prover can compute) until a root exists, and opened there
+    if S::HAS_HIDING {
+        if let Some(i) = (0..sess.n()).find(|i| sess.meta[*i].hiding.is_some()) {
+            let lp = LabeledPolynomial::new(sess.polys[i].label().clone(), sess.polys[i].polynomial().clone(), sess.meta[i].bound, Some(1));
+            for attempt in 0..4u64 {
+                let mut r = rng(sess.seeds[0] ^ (0x5eed + attempt));
+                let Out::Ok((cm, st)) = guard(|| S::PC::commit(&sess.keys.ck, [&lp], Some(&mut r))) else { break };
+                let Some(z) = S::blinding_root(&sess, &st[0], sess.seeds[2] ^ attempt) else { continue };
+                let mut r = rng(sess.seeds[1]);
+                let Out::Ok(pr) = guard(|| S::PC::open(&sess.keys.ck, [&lp], &cm, &z, &mut sess.sponge(), &st, Some(&mut r))) else { break };
+                ctx.label("hiding_proof_at_a_root_of_the_blinding_polynomial");
+                let got = S::proof_bytes(&pr, true).len();
+                let want = S::proof_size(&sess, &[i]);
+                ctx.check(got == want, sig(P, S::NAME, "proof", "size_law"), || {
+                    format!("hiding proof of polynomial {i} opened at a root of its blinding polynomial has {got} bytes, law says {want}")
+                })?;
+                break;
+            }
+        }
+    }
     if !S::LC_LAW {
         return Ok(());
     }
